@@ -193,13 +193,52 @@ class OrderSpy:
         h.spy(SP, 'sum_product_edges', on_call=on_edges, key='sum_product_edges')
 
 
+def near_critical(spec):
+    """a copy of the spec rescaled to spectral radius ~0.97 (None if that fails): Newton still converges in a
+    few iterations there, anything that degrades to a linear rate needs ~10^3"""
+    import copy, torch
+    lo, hi = 1.0, None
+    best = None
+    f = 1.0
+    for _ in range(14):
+        sp = copy.deepcopy(spec)
+        G.scale_recursive(sp, f)
+        x, it, ok, hist = R.Dense(sp, 'real').kleene(max_iter=3000)
+        rho = R.Dense(sp, 'real').spectral_radius(x) if ok and all(torch.isfinite(x[n]).all() for n in x) else 2.0
+        if 0.955 <= rho <= 0.98:
+            return sp
+        if rho < 0.955:
+            lo = f
+            f = f * 1.3 if hi is None else (f + hi) / 2
+        else:
+            hi = f
+            f = (lo + f) / 2
+    return None
+
+
+def newton_budget_probe(fggs, spec, opts, vp):
+    """Newton with a budget that is ample for Newton (60) on a near-critical grammar: value or 'warned'"""
+    import torch
+    fgg, info = G.build_fgg(fggs, spec, 'real', torch.float64, **opts)
+    o = C.call(lambda: fggs.sum_product(fgg, method='newton', semiring=fggs.RealSemiring(dtype=torch.float64), tol=1e-10, kmax=60).to_dense())
+    if not o['ok']:
+        return ('error', f"{o['exc_type']}: {o['exc']}", o.get('where', ''))
+    if o['warnings']:
+        return ('warned',)
+    return unpermute(o['value'].detach(), spec['nonterminals'][spec['start']], vp)
+
+
 def compare(base, other, viols, ctx, obs):
     import torch
     for key, b in base.items():
         o = other.get(key)
         obs['comparisons'] += 1
         if isinstance(b, tuple) or isinstance(o, tuple) or o is None:
-            if isinstance(b, tuple) and b[0] == 'warned' or isinstance(o, tuple) and o[0] == 'warned':
+            bw, ow = isinstance(b, tuple) and b[0] == 'warned', isinstance(o, tuple) and o[0] == 'warned'
+            if key.startswith('newton-budget60') and bw != ow:
+                viols.append(C.viol('presentation:newton-convergence-depends-on-order', f'{key}: canonical presentation {"warns" if bw else "converges"}, this one {"warns" if ow else "converges"} within the same budget', context=ctx))
+                continue
+            if bw or ow:
                 continue
             if (isinstance(b, tuple) and b[0] == 'error') != (isinstance(o, tuple) and o[0] == 'error') or (o is None and not key.startswith('grad/')):
                 viols.append(C.viol(f'presentation:{key.split("/")[0]}:only-one-side-fails', f'{key}: canonical={C.short(b, 150)} presentation={C.short(o, 150)}', context=ctx))
@@ -219,6 +258,7 @@ def check_spec(spec, meta, seed, index):
     comps = G.sccs_of(spec)[2]
     choice = any(len(c) >= 2 for c in comps.values()) or any(len(r['edges']) >= 2 for r in spec['rules'])
     rng = G.rng_for(seed, 'C12p', index)
+    slow = near_critical(spec) if (not G.is_linear(spec) and G.recursive_nts(spec) and index % 2 == 0) else None
     allorders = dict(scc=set(), elim=set(), edges=set())
     base = None
     hooks = {}
@@ -228,6 +268,9 @@ def check_spec(spec, meta, seed, index):
         with Hooks() as h:
             spy = OrderSpy(h, back)
             res = observe(fggs, spec, opts, vp)
+            if slow is not None:
+                res['newton-budget60-near-critical/real'] = newton_budget_probe(fggs, slow, opts, vp)
+                obs['near_critical_newton_runs'] = obs.get('near_critical_newton_runs', 0) + 1
             for kk, v in h.count.items():
                 hooks[kk] = hooks.get(kk, 0) + v
         for kk in allorders:
